@@ -206,7 +206,7 @@ func (g *c15Gen) leaves(t byte) []*ref.Expr {
 	}
 	switch t {
 	case 'N':
-		return []*ref.Expr{ref.N(1), ref.Fl(0.5), ref.Call("int", ref.Value())}
+		return []*ref.Expr{ref.N(1), ref.Fl(0.5), ref.Call("int", ref.Value()), ref.Fl(2500000.0), ref.Fl(0.00001)}
 	case 'T':
 		return []*ref.Expr{ref.Key(), ref.S("a")}
 	case 'B':
